@@ -4,8 +4,10 @@ package main
 import (
 	"bytes"
 	"fmt"
+	"net"
 	"net/netip"
 	"strconv"
+	"strings"
 
 	"github.com/cilium/statedb"
 	"github.com/cilium/statedb/index"
@@ -105,6 +107,60 @@ func (*eng) Gen(r *hx.Rand, n int, tier string, prop string, out *hx.Out) {
 				out.P("nipp v4 %s %d", c[1], b)
 			}
 		}
+	}
+	{
+		// the query-string variants of the integer encoders: canonical decimals, leading zeros (not octal), signs,
+		// range boundaries, junk; NetIP in both forms; the IPv4-only LPM key with host bits set inside the last byte
+		g := r.Fork()
+		out.P("#case int-strings")
+		strs := []string{"0", "00", "7", "8", "9", "010", "08", "0010", "0x10", "0b1", "0o7", "1_0", "+5", "-5", "-0", "+0", "", " 1", "1 ", "12a",
+			"255", "256", "32767", "32768", "-32768", "-32769", "65535", "65536", "065535", "2147483647", "2147483648", "-2147483648", "-2147483649",
+			"4294967295", "4294967296", "9223372036854775807", "9223372036854775808", "-9223372036854775808", "-9223372036854775809",
+			"18446744073709551615", "18446744073709551616", "000000000000000000000000000000017", "99999999999999999999999999"}
+		for i := 0; i < 60; i++ {
+			s := strconv.FormatUint(g.U64()>>uint(g.Intn(64)), 10)
+			if g.Chance(40) {
+				s = strings.Repeat("0", 1+g.Intn(3)) + s
+			}
+			if g.Chance(25) {
+				s = "-" + s
+			}
+			strs = append(strs, s)
+		}
+		for _, s := range strs {
+			for _, op := range []string{"u16s", "u32s", "u64s", "i16s", "i32s", "i64s"} {
+				out.P("%s %s", op, hx.Hex([]byte(s)))
+			}
+		}
+		out.P("#case netip-forms")
+		for i := 0; i < 40; i++ {
+			a := make([]byte, 4)
+			for j := range a {
+				a[j] = byte(g.Intn(256))
+			}
+			out.P("nip %s", hx.Hex(a))
+			out.P("nip %s", hx.Hex(append(append(make([]byte, 10), 0xff, 0xff), a...)))
+			b := make([]byte, 16)
+			for j := range b {
+				b[j] = byte(g.Intn(256))
+			}
+			out.P("nip %s", hx.Hex(b))
+			bits := g.Intn(33)
+			if g.Chance(50) {
+				bits = hx.Pick(g, []int{1, 7, 9, 12, 15, 17, 23, 25, 30, 31})
+			}
+			if g.Chance(60) {
+				a[(bits+7)/8%4] |= 0x7f >> uint(g.Intn(7)) // host bits inside / after the partially covered byte
+			}
+			out.P("nipp4 %s %d", hx.Hex(a), bits)
+		}
+		for _, c := range []string{"0aff0000", "0a800000", "c0a8ffff", "ffffffff"} {
+			for _, b := range []int{0, 1, 7, 8, 9, 15, 23, 30, 31, 32} {
+				out.P("nipp4 %s %d", c, b)
+			}
+		}
+		out.P("nip -")
+		out.P("nip 0a0000")
 	}
 	out.P("#case exh-u16")
 	for v := 0; v < 65536; v++ {
@@ -438,6 +494,96 @@ func (e *eng) Op(f []string, line string, out *hx.Out) {
 				bad += " !BAD:C18:netip-prefix-lpm-key"
 			}
 			out.P("P:C18 idx=%s lpm=%s%s", hx.Hex(ik), hx.Hex(lk), bad)
+		}()
+	case "u16s", "u32s", "u64s", "i16s", "i32s", "i64s":
+		// the query-string variants (index/int.go XString): the decimal string given as hex of its bytes
+		str := string(hx.UnHex(f[1]))
+		var k index.Key
+		var err error
+		var viaValue index.Key // the key of the value variant for the number the string denotes (plain reference)
+		switch f[0] {
+		case "u16s":
+			k, err = index.Uint16String(str)
+			if v, e := strconv.ParseUint(strings.TrimLeft(str, "0")+"", 10, 16); e == nil {
+				viaValue = index.Uint16(uint16(v))
+			}
+		case "u32s":
+			k, err = index.Uint32String(str)
+			if v, e := strconv.ParseUint(strings.TrimLeft(str, "0"), 10, 32); e == nil {
+				viaValue = index.Uint32(uint32(v))
+			}
+		case "u64s":
+			k, err = index.Uint64String(str)
+			if v, e := strconv.ParseUint(strings.TrimLeft(str, "0"), 10, 64); e == nil {
+				viaValue = index.Uint64(v)
+			}
+		case "i16s":
+			k, err = index.Int16String(str)
+		case "i32s":
+			k, err = index.IntString(str)
+			if k2, err2 := index.Int32String(str); (err == nil) != (err2 == nil) || !bytes.Equal(k, k2) {
+				out.P("P:C18 - !BAD:C18:intstring-differs-from-int32string")
+				return
+			}
+		case "i64s":
+			k, err = index.Int64String(str)
+		}
+		if err != nil {
+			out.P("P:C18 err")
+			return
+		}
+		bad := ""
+		// a string of decimal digits with leading zeros denotes the number without them: equal values, equal keys
+		if viaValue != nil && !bytes.Equal(k, viaValue) {
+			bad = " !BAD:C18:string-key-differs-from-value-key"
+		}
+		out.P("P:C18 %s%s", hx.Hex(k), bad)
+	case "nip":
+		// index.NetIP of a net.IP in its 4- or 16-byte form (and index.NetIPAddr for the same address)
+		a := hx.UnHex(f[1])
+		k := index.NetIP(net.IP(a))
+		bad := ""
+		if addr, ok := netip.AddrFromSlice(a); ok {
+			if !bytes.Equal(k, index.NetIPAddr(addr)) {
+				bad += " !BAD:C18:netip-differs-from-netipaddr"
+			}
+			if len(k) != 16 {
+				bad += " !BAD:C18:netip-key-not-16-bytes"
+			}
+			if len(a) == 4 {
+				m := addr.As16()
+				if !bytes.Equal(k, index.NetIP(net.IP(m[:]))) {
+					bad += " !BAD:C18:netip-4-and-16-byte-forms-differ"
+				}
+			}
+		}
+		out.P("P:C18 %s%s", hx.Hex(k), bad)
+	case "nipp4":
+		// lpm.NetIPPrefix4ToIndexKey
+		a := hx.UnHex(f[1])
+		bits, _ := strconv.Atoi(f[2])
+		if len(a) != 4 {
+			out.P("E nipp4")
+			return
+		}
+		pfx := netip.PrefixFrom(netip.AddrFrom4([4]byte(a)), bits)
+		if !pfx.IsValid() {
+			out.P("E nipp4 invalid")
+			return
+		}
+		func() {
+			defer func() {
+				if recover() != nil {
+					out.P("P:C18 panic")
+				}
+			}()
+			lk := lpm.NetIPPrefix4ToIndexKey(pfx)
+			bad := ""
+			m4 := pfx.Masked().Addr().As4()
+			if d, pl := lpm.DecodeLPMKey(lk); int(pl) != bits || !bytes.Equal(d, m4[:(bits+7)/8]) {
+				bad = " !BAD:C18:netip-prefix4-lpm-key"
+			}
+			out.P("P:C18 %s%s", hx.Hex(lk), bad)
 		}()
 	case "lpmdec":
 		func() {
